@@ -2,7 +2,8 @@
    All of them are about the definitions of Raft/Model.v that Raft/Run.v evaluates in the
    correspondence checks. *)
 From Coq Require Import String Sorting.Sorted.
-From VP Require Import Base.Tactics Raft.Model Raft.Arms Raft.Gen_Commands Raft.ProofsSM Raft.ProofsLog Raft.ProofsRecover Raft.ProofsAgree.
+From VP Require Import Base.Tactics Raft.Model Raft.Arms Raft.Gen_Commands Raft.ProofsSM Raft.ProofsLog Raft.ProofsRecover Raft.ProofsAgree
+     Raft.Sync Raft.Gen_Replication Raft.ProofsSync.
 Open Scope Z_scope.
 
 (* ====================================================================== C35 *)
@@ -265,4 +266,68 @@ Proof.
   intros H. specialize (H (ms_step mstore0 (OVote {| v_term := 1; v_node := 1; v_committed := true |}))).
   destruct H as [H _]. vm_compute in H. discriminate.
 Qed.
+
+(* ====================================================================== C38 *)
+(* sync_from_raft never changes a view that is in sync with the replicated state ... *)
+Theorem C38_sync_idempotent : forall rs v, insync rs v -> veq (sync rs v) v.
+Proof. exact sync_fixpoint. Qed.
+(* ... replicating every primitive change (worker added / removed / status / assigned pipelines, group set / removed,
+   connector set / removed, scaling policy) keeps the view in sync, from the empty coordinator on ... *)
+Theorem C38_replicated_changes_stay_in_sync : forall ds rs v,
+    insync rs v -> insync (apply_all (map cmd_of_delta ds) rs) (fold_left apply_delta ds v).
+Proof. exact replicated_deltas_insync. Qed.
+(* ... hence re-synchronising never reverts changes that were replicated *)
+Theorem C38_no_revert : forall ds rs v, insync rs v ->
+    veq (sync (apply_all (map cmd_of_delta ds) rs) (fold_left apply_delta ds v)) (fold_left apply_delta ds v).
+Proof. intros. apply sync_fixpoint. now apply replicated_deltas_insync. Qed.
+Theorem C38_reachable_in_sync : forall ds, insync (apply_all (map cmd_of_delta ds) cstate0) (fold_left apply_delta ds view0).
+Proof. intros. apply replicated_deltas_insync. exact insync0. Qed.
+
+(* Conversely a change of ANY kind that is not replicated is reverted by the next sync (for a status change: the
+   recovery direction, replicated "unhealthy" vs local "ready"). *)
+Definition ex_conn : connector := {| cn_name := 7%N; cn_type := 8%N; cn_params := []; cn_desc := None |}.
+Definition ex_base : list delta :=
+  [DAddWorker 5%N 9%N 9%N {| cpu_cores := 4; pipelines_running := 0; max_pipelines := 10 |}; DSetStatus 5%N SUnhealthy;
+   DSetGroup 6%N (JNum 1); DSetConnector 7%N ex_conn].
+Definition ex_rs : cstate := apply_all (map cmd_of_delta ex_base) cstate0.
+Definition ex_view : view := fold_left apply_delta ex_base view0.
+Definition ex_unreplicated (k : dkind) : delta :=
+  match k with
+  | KAddWorker => DAddWorker 4%N 9%N 9%N {| cpu_cores := 1; pipelines_running := 0; max_pipelines := 1 |}
+  | KRemoveWorker => DRemoveWorker 5%N
+  | KSetStatus => DSetStatus 5%N SReady
+  | KSetAssigned => DSetAssigned 5%N [3%N]
+  | KSetGroup => DSetGroup 6%N (JNum 2)
+  | KRemoveGroup => DRemoveGroup 6%N
+  | KSetConnector => DSetConnector 3%N ex_conn
+  | KRemoveConnector => DRemoveConnector 7%N
+  | KSetPolicy => DSetPolicy (Some (JNum 1))
+  end.
+Theorem C38_unreplicated_change_reverted : forall k,
+    insync ex_rs ex_view /\ kind_of (ex_unreplicated k) = k /\
+    ~ veq (sync ex_rs (apply_delta ex_view (ex_unreplicated k))) (apply_delta ex_view (ex_unreplicated k)).
+Proof.
+  intros k. split; [apply C38_reachable_in_sync|]. split; [destruct k; reflexivity|].
+  intros (Hw & Hg & Hc & Hp).
+  destruct k; cbn [ex_unreplicated] in *;
+    try (specialize (Hw 5%N); vm_compute in Hw; discriminate);
+    try (specialize (Hw 4%N); vm_compute in Hw; discriminate);
+    try (specialize (Hg 6%N); vm_compute in Hg; discriminate);
+    try (specialize (Hc 3%N); vm_compute in Hc; discriminate);
+    try (specialize (Hc 7%N); vm_compute in Hc; discriminate);
+    try (vm_compute in Hp; discriminate).
+Qed.
+
+(* The operations of the property text: each performs certain kinds of change (Sync.op_deltas) and sends the commands the
+   translator found in its handler / health-loop branch (Gen_Replication.gen_replicates). Known finding classes = the
+   operations that change something they do not replicate. *)
+Definition Known_C38_not_replicated (o : op_kind) : Prop :=
+  In o [OpDeploy; OpTeardown; OpManualMigrate; OpApiRebalance; OpDrain; OpFailover; OpAutoRebalance; OpRecovery; OpSetScalingPolicy].
+Theorem C38_operations_replicate_their_changes : forall o,
+    ~ Known_C38_not_replicated o -> covered (gen_replicates o) o = true.
+Proof. intros [] H; try reflexivity; exfalso; apply H; cbn; tauto. Qed.
+Theorem C38_not_replicated_refuted : exists o, Known_C38_not_replicated o /\ covered (gen_replicates o) o = false.
+Proof. exists OpRecovery. split; [cbn; tauto|reflexivity]. Qed.
+(* the list of uncovered operations in the current source, for the evidence file (not a requirement) *)
+Definition uncovered_ops : list op_kind := filter (fun o => negb (covered (gen_replicates o) o)) all_ops.
 
